@@ -38,6 +38,15 @@ func lastPos(i *interpreter) string {
 	return fmt.Sprintf("%s (%s)", i.prog.Fset.Position(pos), fn)
 }
 
+// targetStack renders the call stack of the interpreted program (innermost first).
+func targetStack(fr *frame) string {
+	var sb strings.Builder
+	for f, n := fr, 0; f != nil && n < 40; f, n = f.caller, n+1 {
+		sb.WriteString("\n    at " + f.fn.String())
+	}
+	return sb.String()
+}
+
 func describePanicValue(v value) string {
 	if itf, ok := v.(iface); ok {
 		if s, ok := itf.v.(string); ok {
@@ -164,6 +173,11 @@ func symStrSlice(s symStr, lo, hi value) value {
 func symStrConv(dst types.Type, s symStr) value {
 	if b, ok := dst.(*types.Basic); ok && b.Kind() == types.String {
 		return s
+	}
+	if sl, ok := dst.(*types.Slice); ok {
+		if b, ok := sl.Elem().Underlying().(*types.Basic); ok && b.Kind() == types.Uint8 {
+			return symBytes{str: s}
+		}
 	}
 	panic(engineErr("conversion of a symbolic string to " + dst.String()))
 }
@@ -301,7 +315,7 @@ func bigToStringValue(b bigv) value {
 	if b.concrete() {
 		return b.c.String()
 	}
-	return symStr{"(ite (< " + b.t + " 0) (str.++ \"-\" (str.from_int (- " + b.t + "))) (str.from_int " + b.t + "))"}
+	return symStr{regIntString(b.t)}
 }
 
 func init() {
@@ -421,6 +435,10 @@ func init() {
 		case symStr:
 			if base != 10 {
 				panic(engineErr("big.Int.SetString(symbolic, base != 10)"))
+			}
+			if it, ok := intOfString(s); ok {
+				setBig(a[0], mkBigT(it), "big.Int receiver")
+				return tuple{a[0], true}
 			}
 			// accepted syntax in base 10: [+-]?[0-9]+
 			digits := "(re.+ (re.range \"0\" \"9\"))"
